@@ -568,6 +568,11 @@ def struct_accessor_pair(repo: Repo, rep, P: str, rule: str, ci: ClassInfo, prop
         tg = up.targets[0]
         tgs = tg.elts if isinstance(tg, (ast.Tuple, ast.List)) else [tg]
         rvals = [x for x in ritems if x[0] != "x"]
+        if len(tgs) != len(rvals) and not isinstance(tg, (ast.Tuple, ast.List)):
+            # the tuple is kept whole in one name: where its items go is not read here
+            rep.inconclusive(f"{P}.{rule}", con, norm(up)[:120], f"the {len(rvals)} unpacked values are bound to one name; their destinations are not followed",
+                             f"{rel}:{up.lineno}")
+            return
         if len(tgs) != len(rvals):
             rep.violation(f"{P}.{rule}", con, norm(up)[:120], f"unpack yields {len(rvals)} values for {len(tgs)} targets", f"{rel}:{up.lineno}")
             return
